@@ -194,7 +194,10 @@ func cmdChurn(args []string) {
 			}(i)
 		}
 		wg.Wait()
-		settle(func() bool { g, _ := frameworkGoroutines(); return g == bg && countFDs() == bfd && len(es.Conns()) == bconns })
+		settle(func() bool {
+			g, _ := frameworkGoroutines()
+			return g == bg && countFDs() == bfd && len(es.Conns()) == bconns
+		})
 		g, which := frameworkGoroutines()
 		if which == nil {
 			which = []string{}
